@@ -407,9 +407,19 @@ class Exec:
     def st_With(self, node, st):
         for it in node.items:
             txt = ast.unparse(it.context_expr)
-            if not (txt.startswith('np.errstate') or txt.startswith('numpy.errstate')
-                    or 'catch_warnings' in txt):
-                raise Unsupported('with %s' % txt)
+            if txt.startswith('np.errstate') or txt.startswith('numpy.errstate') or 'catch_warnings' in txt:
+                continue
+            if txt.startswith('open(') and 'call:open' in self.unit.abstract:
+                # with open(...) as f: the unit states what opening the file means (an abstract handle); closing has no
+                # effect the contracts speak about
+                call = it.context_expr
+                args = [self.eval(a, st) for a in call.args]
+                kw = {k.arg: self.eval(k.value, st) for k in call.keywords}
+                v = self.unit.abstract['call:open'](self, st, args, kw, node)
+                if it.optional_vars is not None:
+                    self.assign(it.optional_vars, v, st, node)
+                continue
+            raise Unsupported('with %s' % txt)
         return self.exec_block(node.body, st)
 
     def st_Assign(self, node, st):
@@ -2174,6 +2184,10 @@ class Exec:
 
     def call(self, f, args, kwargs, st, node):
         from . import lib
+        if isinstance(f, ModV):
+            ha = self.unit.abstract.get('call:' + f.dotted.split('.')[-1])
+            if ha is not None:        # a function of a module without model (pickle.load, pathlib.Path ...): the unit's abstract contract
+                return ha(self, st, args, kwargs, node)
         if not isinstance(f, FuncV):
             raise Unsupported('call of %r at line %d' % (f, getattr(node, 'lineno', 0)))
         if f.kind == 'logger':
